@@ -63,6 +63,25 @@ CHECKS = {
                 "non-integral float truncates (documented, not judged).",
         "technique": "Lean 4 proof over the typed-update model + differential correspondence with Profile.update and the real CLI route",
     },
+    "C14": {
+        "text": "Lean world model (catalogue + evidence as state, every modelled query / accessor / filter / stage as an operation): machine-checked "
+                "that any history of operations leaves the world unchanged and that the answer to an operation is independent of the history "
+                "before it (shape of the accessor regenerated from SolvedAllele.mutations: copy vs in-place - the in-place shape has a closed "
+                "counter-example); the evidence filter of a candidate's refinement depends only on that candidate's own structure (shape "
+                "regenerated from estimate_minor); the construction order of the minor model is invariant under permutation of the caller's "
+                "set of considered variants (insertion-sort canonicalisation proved: sorted + permutation + antisymmetry; flag regenerated from "
+                "solve_minor_model), hence so is the whole built model; feasibility is invariant under row permutation. Tie: deep snapshots of "
+                "the real Gene/Coverage objects around every operation of random histories over the real stages, accessors, writers and queries "
+                "(shipped + generated genes) equal the initial snapshot and a fresh load; repeated / interleaved / multi-gene genotype() calls "
+                "(incl. failing genes) and fresh interpreters under several PYTHONHASHSEED values give byte-identical output; sibling "
+                "independence of refinement probed on the real estimate_minor. Three genuine defects repaired by fix: commits (accessor aliasing, "
+                "filter closing over the loop variable, hash-seed dependent tie-breaker); pooled candidates across siblings is a known finding.",
+        "design_ref": "DESIGN.md section 4 (C14), 5",
+        "note": "PARTIAL: interpreter-level behaviour (hash seeds, module-level caches, solver determinism of CBC) is runtime; it is exhibited "
+                "by the subprocess runs, not by a theorem. The world theorem covers the modelled operations only; un-modelled code is covered "
+                "by the snapshot tie. Solver determinism (CBC returning the same optimum for the same model) is assumed.",
+        "technique": "Lean 4 proof (state-machine invariant by induction over histories, sort canonicalisation, shapes regenerated from source) + deep-snapshot and fresh-interpreter correspondence",
+    },
     "C19": {
         "text": "Machine-checked theorems about the Lean model of the no-data guards (Sample.__init__ neutral-region checks, genotype()'s "
                 "average-depth guard, whose shape is regenerated from the source): for alignment input an average depth below the minimum - in "
